@@ -10,7 +10,7 @@ use super::super::util::{cache_name_of, show_bytes};
 
 fn clock_name(c : ClockMode) -> &'static str
 {
-    match c { ClockMode::Distinct => "distinct-clock", ClockMode::Tick => "tick-clock" }
+    match c { ClockMode::Distinct => "distinct-clock", ClockMode::Tick => "tick-clock", ClockMode::Unordered => "unordered-distinct-clock" }
 }
 
 /* probe: table entries whose remembered mtime equals the file's current mtime but whose remembered
@@ -138,7 +138,7 @@ pub fn run_pair_probe(case : &Case, mut stats : Option<&mut Stats>) -> (Vec<Viol
                             }
                         }
                     }
-                    if case.knobs.clock == ClockMode::Distinct
+                    if case.knobs.clock != ClockMode::Tick
                     {
                         for v in oracle_c01(&ia).into_iter().chain(oracle_c01(&ib).into_iter())
                         {
